@@ -523,4 +523,18 @@ def tkMember (d : Draft) (k : Str) (v : Json) : Bool :=
   else true
 
 
+/-- every `$ref` member, at any depth, has a string value (C03's proviso: the Draft 3 and 4
+    metaschemas do not describe `$ref`) -/
+def refsAreStrings : Json → Bool
+  | .arr xs => refsAreStringsList xs
+  | .obj kvs => refsAreStringsKvs kvs
+  | _ => true
+where
+  refsAreStringsList : List Json → Bool
+    | [] => true
+    | x :: xs => refsAreStrings x && refsAreStringsList xs
+  refsAreStringsKvs : List (Str × Json) → Bool
+    | [] => true
+    | (k, v) :: rest => (if k = ks "$ref" then isStrJ v else true) && refsAreStrings v && refsAreStringsKvs rest
+
 end JS.Spec
